@@ -1581,3 +1581,24 @@ package grpctunnel
 //@   at call RecvMsg#1
 //@     assert[C15] @serialised held(h.recvMu)
 
+// ---------------------------------------------------------------------------
+// Goroutine inventory (C14): every go statement, its exit class and what establishes the exit event
+// ---------------------------------------------------------------------------
+
+//@ goroutine newTunnelChannel#1 carrier-end recvLoop: every path out of the loop is a return after close(e); ends when the carrier Recv fails
+//@ goroutine (*tunnelChannel).newStream#1 ctx newStream$1 waits on str.ctx.Done(); client finishStream (winner) and close() cancel that context
+//@ goroutine (*tunnelClientStream).cancelStream#1 sends one cancel frame
+//@ goroutine (*tunnelServer).serve#1 sends the settings frame, spawned at most once before the loop
+//@ goroutine (*tunnelServer).serve#2 sends one close frame for a rejected stream
+//@ goroutine (*tunnelServerStream).finishStream#1 sends headers-if-needed then the close frame
+//@ goroutine (*tunnelServer).createStream#1 handler-return serveStream: one handler call, then (deferred, also on panic) finishStream
+//@ goroutine (*tunnelServerStream).serveStream#1 ctx serveStream$2 waits on st.ctx.Done(); server finishStream cancels that context on every call
+
+// ---------------------------------------------------------------------------
+// Remaining field disciplines (C15)
+// ---------------------------------------------------------------------------
+
+//@ type threadSafeOpenReverseTunnelClient
+//@   field closed guarded_by sendMu
+//@   field TunnelService_OpenReverseTunnelClient immutable
+//@   field sendMu, recvMu monitor
